@@ -6,6 +6,7 @@ CONSTANT Buggy_SetstateByPosition = TRUE
 CONSTANT Buggy_ArgsBySetOrder = TRUE
 CONSTANT Buggy_DigestSkipsShared = TRUE
 CONSTANT Buggy_CompiledLosesVars = FALSE
+CONSTANT Buggy_OptionsCrossed = FALSE
 CONSTANT Buggy_VarsByName = TRUE
 INIT Init
 NEXT Next
